@@ -5,6 +5,7 @@
 import OQ.Generated.TranslatedC12
 import OQ.Lemmas.Translated
 import OQ.Model.C12
+import OQ.Props.C12
 namespace OQ.C12
 open OQ.Generated OQ.Py OQ.Tr
 
@@ -39,6 +40,14 @@ theorem translated_next_same_weight_eq (v : Nat) (hv : 1 ≤ v) :
   have e5 : ((1 : Int)).toNat = 1 := rfl
   simp only [e5]
   first | done | (push_cast; rfl) | push_cast
+
+/-- END-TO-END ON THE CODE AS IT IS NOW: for every `val ≥ 1`, `_get_next_number_with_same_hamming_weight(val)` is the LEAST integer
+    above `val` with the same Hamming weight (composition of the tie with `nextSameWeight_next`) – the step on which
+    `dicke_state` enumerates "exactly the basis states of the requested Hamming weight". -/
+theorem translated_gosper_next (v : Nat) (hv : 0 < v) :
+    ∃ w : Nat, Translated.next_number_with_same_hamming_weight (v : Int) = (w : Int) ∧ v < w ∧
+      popcount w = popcount v ∧ ∀ u, v < u → popcount u = popcount v → w ≤ u :=
+  ⟨nextSameWeight v, translated_next_same_weight_eq v hv, nextSameWeight_next v hv⟩
 
 /-! non-vacuity -/
 example : Translated.next_number_with_same_hamming_weight 3 = 5 := by decide
